@@ -21,8 +21,7 @@ func genOpts(strict bool) refjs.GenOpts {
 
 func init() {
 	if noExclusions {
-		// findings with a patch that the scratch worktree under test contains
-		refjs.Known.ThisInEvalBeforeSuper = false
+		// (no listed finding has a pending patch at the moment; the remaining traps guard unpatched findings)
 	}
 }
 
